@@ -30,6 +30,13 @@ type UT struct{ Txt string }
 
 func (u *UT) UnmarshalText(b []byte) error { u.Txt = "T:" + string(b); return nil }
 
+// RecNode is the recursive type of the specification's kind "rec"
+type RecNode struct {
+	V    int
+	Next *RecNode  `json:"next"`
+	Kids []RecNode `json:"kids"`
+}
+
 // TKey is a map key type with UnmarshalText / MarshalText. It is a struct, not a string kind:
 // encoding/json uses the string value of string-kind keys directly and never calls MarshalText on them.
 type TKey struct{ K string }
@@ -165,7 +172,7 @@ var leafTypes = map[string]reflect.Type{
 	"u8": reflect.TypeOf(uint8(0)), "u16": reflect.TypeOf(uint16(0)), "u32": reflect.TypeOf(uint32(0)), "u64": reflect.TypeOf(uint64(0)), "uint": reflect.TypeOf(uint(0)),
 	"f32": reflect.TypeOf(float32(0)), "f64": reflect.TypeOf(float64(0)),
 	"iface": reflect.TypeOf((*interface{})(nil)).Elem(), "num": reflect.TypeOf(json.Number("")), "raw": reflect.TypeOf(json.RawMessage(nil)),
-	"bytes": reflect.TypeOf([]byte(nil)), "uj": reflect.TypeOf(UJ{}), "ut": reflect.TypeOf(UT{}),
+	"bytes": reflect.TypeOf([]byte(nil)), "uj": reflect.TypeOf(UJ{}), "ut": reflect.TypeOf(UT{}), "rec": reflect.TypeOf(RecNode{}),
 }
 
 var keyTypes = map[string]reflect.Type{
@@ -185,6 +192,8 @@ func typeSig(t map[string]interface{}) string {
 		return fmt.Sprintf("[%d]%s", intOf(t["n"]), typeSig(rec(t["e"])))
 	case "map":
 		return "map[" + sstr(t["key"]) + "]" + typeSig(rec(t["e"]))
+	case "rec":
+		return fmt.Sprintf("rec%d", intOf(t["d"]))
 	case "st":
 		var p []string
 		for _, f := range seqOf(t["f"]) {
@@ -439,6 +448,16 @@ func build(t, v map[string]interface{}) reflect.Value {
 		for i, e := range seqOf(v["f"]) {
 			out.Field(i).Set(build(rec(rec(fs[i])["t"]), rec(e)))
 		}
+	case "rec":
+		d := intOf(t["d"])
+		if d > 0 {
+			d--
+		}
+		sub := map[string]interface{}{"k": "rec", "d": float64(d)}
+		fts := []map[string]interface{}{{"k": "int"}, {"k": "ptr", "e": sub}, {"k": "slice", "e": sub}}
+		for i, e := range seqOf(v["f"]) {
+			out.Field(i).Set(build(fts[i], rec(e)))
+		}
 	default:
 		if _, isNum := numLit[sstr(v["c"])]; isNum && g == "n" {
 			return parseNum(rt, numLit[sstr(v["c"])])
@@ -467,8 +486,25 @@ func numKind(k string) bool {
 	return false
 }
 
+func unfoldRec(t map[string]interface{}) map[string]interface{} {
+	d := intOf(t["d"])
+	fld := func(n, jn string, ft map[string]interface{}) interface{} {
+		return map[string]interface{}{"tag": "ren", "n": n, "jn": jn, "t": ft}
+	}
+	if d > 0 {
+		d--
+	}
+	sub := map[string]interface{}{"k": "rec", "d": float64(d)}
+	fs := []interface{}{fld("V", "V", map[string]interface{}{"k": "int"}),
+		fld("Next", "next", map[string]interface{}{"k": "ptr", "e": sub}), fld("Kids", "kids", map[string]interface{}{"k": "slice", "e": sub})}
+	return map[string]interface{}{"k": "st", "f": fs}
+}
+
 func zeroV(t map[string]interface{}) map[string]interface{} {
 	k := sstr(t["k"])
+	if k == "rec" {
+		return zeroV(unfoldRec(t))
+	}
 	switch {
 	case numKind(k):
 		return map[string]interface{}{"g": "n", "as": k, "c": "z"}
@@ -500,6 +536,12 @@ func zeroV(t map[string]interface{}) map[string]interface{} {
 
 func preV(t map[string]interface{}) map[string]interface{} {
 	k := sstr(t["k"])
+	if k == "rec" {
+		if intOf(t["d"]) == 0 {
+			return map[string]interface{}{"g": "st", "f": []interface{}{map[string]interface{}{"g": "n", "as": "int", "c": "p9"}, nilV, nilV}}
+		}
+		return preV(unfoldRec(t))
+	}
 	p9 := map[string]interface{}{"j": "n", "c": "p9"}
 	switch {
 	case numKind(k):
